@@ -52,7 +52,8 @@ VALUES = {
     "bytes": st.one_of(st.text(max_size=5).map(lambda s: {"t": "bytes", "v": s.encode("utf-8").hex()}),
                        st.sampled_from(["", "61", "c3a9", "00", "e282ac"]).map(lambda h: {"t": "bytes", "v": h})),
     "decimal": st.one_of(st.sampled_from(["0", "-0", "1", "1.50", "1.5", "0.001", "123456789012345", "-123456789.012345", "1E+3", "1E-7", "12E+2", "0E+2",
-                                          "999999999999999", "0.000000000000001", "1E+20", "9007199254740993", "1.0", "100", "1E+2"]),
+                                          "999999999999999", "0.000000000000001", "1E+20", "9007199254740993", "1.0", "100", "1E+2",
+                                          "1E-400", "-1E-400", "123E-330", "1E+400", "-15E+399", "1E-320", "5E-324", "1.5E+308", "17E+307"]),
                          st.tuples(st.integers(-(10 ** 15) + 1, 10 ** 15 - 1), st.integers(-12, 8)).map(lambda t: f"{t[0]}E{t[1]}")).map(lambda s: {"t": "decimal", "v": s}),
     "date": st.one_of(st.dates().map(lambda d: {"t": "date", "v": d.isoformat()}),
                       st.sampled_from(["0001-01-01", "0999-12-31", "9999-12-31", "1970-01-01", "2020-02-29"]).map(lambda s: {"t": "date", "v": s})),
@@ -109,13 +110,15 @@ def inst_values(d):
 
 
 def scalar_t():
-    return st.one_of(st.sampled_from(SCALARS).map(L), st.sampled_from(["Color", "Num", "Plain"]).map(lambda e: {"k": "enum", "e": e}))
+    return st.one_of(st.sampled_from(SCALARS).map(L), st.sampled_from(["Color", "Num", "Plain", "Cross"]).map(lambda e: {"k": "enum", "e": e}))
 
 
 def field_types(depth):
     base = scalar_t()
-    hash_t = st.one_of(st.sampled_from(HASHABLE).map(L), st.sampled_from(["Color", "Num", "Plain", "Plain"]).map(lambda e: {"k": "enum", "e": e}),
-                       st.sampled_from(["int", "str"]).map(lambda o: {"k": "opt", "a": L(o)}))
+    hash_t = st.one_of(st.sampled_from(HASHABLE).map(L), st.sampled_from(["Color", "Num", "Plain", "Plain", "Cross"]).map(lambda e: {"k": "enum", "e": e}),
+                       st.sampled_from(["int", "str"]).map(lambda o: {"k": "opt", "a": L(o)}),
+                       # hashable containers: a set of pairs is written as an array of arrays
+                       st.sampled_from([{"k": "tuple", "a": [L("int"), L("int")]}, {"k": "tuple", "a": [L("str"), L("date")]}, {"k": "tuplev", "a": L("int")}]))
     if depth <= 0:
         return base
     inner = field_types(depth - 1)
